@@ -175,6 +175,24 @@ def j_gate(ck, ctx):
         ok = pe[0] == "param" and re_ == ("const", 0)
     ck.ob("j-value", "Runner::new-init", ok, "Runner::new builds {running: 0, parallelism: <param>}", span=nb.loc, fn=nb.nname)
     C.single_writer(ck, ctx, "single-writer", "work::Options", "parallelism", ["run::parse_args"])
+    # in parse_args: one write takes the -j value, the other (the default) happens only under `parallelism == 0`
+    pa = ck.need("fn run::parse_args", F.body("run::parse_args"))
+    PR = ctx.res(pa)
+    pcfg = ctx.cfg(pa)
+    z_, nz_ = C.zero_test_edges(ctx, pa, lambda e: field_chain(e)[1][-2:] == ["options", "parallelism"])
+    writes = []
+    for bi in pcfg.reach:
+        for s_ in pa.blocks[bi]["stmts"]:
+            if s_["k"] == "assign" and s_["place"]["p"] and s_["place"]["p"][-1].get("name") == "parallelism":
+                writes.append((bi, PR.stmt_rvalue(bi, s_)))
+    # call destinations count as writes too (`x.parallelism = f()` can be a direct destination)
+    for bb_, t_ in pa.calls():
+        if t_["dest"]["p"] and t_["dest"]["p"][-1].get("name") == "parallelism":
+            writes.append((t_["target"] if t_["target"] >= 0 else bb_, ("call", callee_of(t_), (), bb_)))
+    from_j = [w for w in writes if any(c[1].endswith("::parse") or "FromStr" in c[1] for c in calls_in(w[1])) or (w[1][0] == "call" and ("parse" in w[1][1] or "branch" in w[1][1]))]
+    dflt = [w for w in writes if w not in from_j]
+    okj = len(from_j) >= 1 and all(Q.gated(pcfg, bi, z_)[0] for bi, _ in dflt) and bool(z_)
+    ck.ob("j-value", "default-only-when-unset", okj, "Options.parallelism is replaced by the default only when it is still 0 (no -j given); %d write(s) from the -j value, %d default write(s)" % (len(from_j), len(dflt)), span=pa.loc, fn=pa.nname)
 
 
 def counters(ck, ctx):
